@@ -173,5 +173,35 @@ def run(case, bct, REC):
             prevm = members(X)
             if 0 < len(Sm) < len(members(W)):
                 REC.note_nontrivial(PROP, 'score_wu', W, s)
+    # non-dyadic (one-decimal) weights: s exactly equal to a node's strength inside successive cores.
+    # Strengths are summed sequentially in index order on both sides (numpy's axis-0 reduction and the oracle).
+    if not directed and 3 <= n <= 9:
+        rs = np.random.RandomState(case['ws'] + 77)
+        Wt = np.triu(rs.randint(1, 10, size=(n, n)) / 10.0, 1)
+        W = A * (Wt + Wt.T)
+        cand = set()
+        alive = list(range(n))
+        while alive:
+            st = {i: sum(W[i, j] for j in alive if j != i) for i in alive}
+            pos = [v for v in st.values() if v > 0]
+            if not pos:
+                break
+            cand.update(pos)
+            mn = min(pos)
+            alive = [i for i in alive if st[i] > mn]
+        for sv in sorted(cand)[:40]:
+            REC.tag(PROP, 'exec')
+            S = O.kcore_set(W, sv, 'wei')
+            E = core_expected(W, S)
+            Sm = members(E)
+            ok, res = call(REC, PROP, 'score_wu', bct.score_wu, W, sv)
+            if not ok:
+                continue
+            X, sn = res
+            det = {'W': W, 's': sv, 'got': X, 'expected_members': sorted(Sm)}
+            REC.check(PROP, 'score_wu', 'core_matrix', bool(np.array_equal(np.asarray(X), E)), det, ('one_decimal_weights',))
+            REC.check(PROP, 'score_wu', 'size', int(sn) == len(Sm), dict(det, got_size=sn), ('one_decimal_weights',))
+            if 0 < len(Sm) < len(members(W)):
+                REC.note_nontrivial(PROP, 'score_wu', W, sv)
     if n <= 5:
         REC.sample(PROP, {'A': A, 'directed': directed}, cap=4)
